@@ -24,7 +24,9 @@ SumLens(ws, k) == IF k = 0 THEN 0 ELSE ws[k].dataLen + SumLens(ws, k - 1)
 OutName == <<111,46,99,108,109>>
 Scenario(ws) ==
   LET n == Len(ws)
-      paths == [i \in 1..n |-> <<119,47>> \o ws[i].name \o Ext]
+      \* every input in a directory spelled its own way: "w/" "./w/" "w//" and another directory "v/" (the archive depends on the file names only)
+      DirSpell == << <<119,47>>, <<46,47,119,47>>, <<119,47,47>>, <<118,47>> >>
+      paths == [i \in 1..n |-> DirSpell[((i + ws[i].dataLen + Len(ws[i].name)) % 4) + 1] \o ws[i].name \o Ext]
       puts == [i \in 1..n |-> Put(paths[i], WavImage(ws[i]))]
       s == SortCI(ws)
       listing == [i \in 1..Len(s) |-> [name |-> s[i].name, size |-> s[i].dataLen]]
